@@ -27,7 +27,7 @@ import (
 
 var e *common.Env
 
-var watchdog = 3 * time.Second
+var watchdog = 20 * time.Second
 
 var outcomeNames = map[byte]string{'s': "same", 'i': "io", 'm': "malformed", 'd': "different-data", 'o': "error-without-cause", 't': "timeout", 'p': "panic"}
 
